@@ -308,7 +308,8 @@ def docs_do_not_alter_type(rep):
 
 # documented item, its doc-less twin, and for every documented NAMED field the key its comment block must sit in front of
 DOC_TWINS = [('DD1', 'DN1', [('da {0} {{b}}', '"a-b"'), ('db', 'b'), ('dc', 'c'), ('dd', 'd'), ('df', 'type')]),
-             ('DD2', 'DN2', [('fa {1}', 'x'), ('fb', '"y-y"')]), ('DD3', 'DN3', [('fa', 'x')]), ('DD4', 'DN4', []), ('DD5', 'DN5', [('da', 'a')])]
+             ('DD2', 'DN2', [('fa {1}', 'x'), ('fb', '"y-y"')]), ('DD3', 'DN3', [('fa', 'x')]), ('DD4', 'DN4', []), ('DD5', 'DN5', [('da', 'a')]),
+             ('DD6', 'DN6', []), ('DD7', 'DN7', []), ('DD8', 'DN8', [])]
 
 
 def doc_twins(rep):
